@@ -210,4 +210,20 @@ PLAN = {
         runs=both("returned", dict(cases=8000, size=100, budget=35), dict(cases=200000, size=150, budget=600), 4, 4) +
              both("verdict", dict(cases=2000, size=100, budget=35), dict(cases=60000, size=150, budget=600), 4, 4),
     ),
+    "C19": dict(
+        rule=("the esolver executable (built from /repo's working tree, optimised build without -m and ASan build with -m 2^64-1) is "
+              "run as a child process on files rendered from a known model by the independent emitters or by the library's writer: "
+              "LP/MPS, plain/.gz/.bz2, odd extension needing -L, options drawn from {-L, -O name[.gz|.bz2], -p k, -d k, -S, -P bits, "
+              "-b f}; damaged variants (truncation, inserted operators, 1/0, stray section keywords, leading garbage) and missing "
+              "files. Oracle: for text the library reader rejects (decided in-process) or a missing file: non-zero exit, no signal, no "
+              "sanitizer abort; for readable text: exit 0, the (possibly compressed) solution file parses, both status lines equal the "
+              "reference solver's certified truth, and for OPTIMAL the listed non-zero x / reduced costs / duals / slacks (absent = 0, "
+              "names must exist, listed values must be non-zero exact fractions) pass the exact optimality certificate of C01 against "
+              "the model and Value equals the optimum; a basis written with -b must make a second run with -B exit 0 with the same "
+              "optimum. Non-trivial = readable file, OPTIMAL truth, >=2 option kinds."),
+        technique="process-level PBT: differential against the reference solver + certificate check of the parsed solution file",
+        needs_esolver=True,
+        min_nontrivial=dict(quick=200, thorough=3000),
+        runs=[dict(variant="", flavour="opt", quick=dict(cases=4000, size=100, shards=16, budget=40), thorough=dict(cases=120000, size=150, shards=16, budget=900))],
+    ),
 }
